@@ -9,7 +9,8 @@
 (* r1 = min(n, r0 + c) and continues from r1 until r0 >= n.                *)
 (* Batch: an arbitrary duplicate-free list of rows is sorted, consecutive  *)
 (* rows are merged into ranges, the ranges are loaded in order and the     *)
-(* result is put back into the requested order.                            *)
+(* result is put back into the requested order.  Random access may be      *)
+(* interleaved with an iteration and does not move its cursor.             *)
 (* Both must return exactly the stored values, whatever the encoding: the  *)
 (* model works on the abstract matrix Mx; the encodings, numeric types and *)
 (* HDF5 layouts are dimensions of the replay.                              *)
@@ -18,17 +19,20 @@ EXTENDS Integers, Sequences, FiniteSets, FiniteSetsExt, SequencesExt, TLC, Json
 
 CONSTANTS NR, NC, Vals, MaxBatch
 
-VARIABLES Mx, c, r0, yielded, pc
-vars == <<Mx, c, r0, yielded, pc>>
+VARIABLES Mx, c, r0, yielded, pc, nacc
+vars == <<Mx, c, r0, yielded, pc, nacc>>
 
 Init == /\ Mx \in [1..NR -> [1..NC -> Vals]]
-        /\ c \in 1..(NR + 1) /\ r0 = 0 /\ yielded = <<>> /\ pc = "iter"
+        /\ c \in 1..(NR + 1) /\ r0 = 0 /\ yielded = <<>> /\ pc = "iter" /\ nacc = 0
 Step == /\ pc = "iter"
         /\ IF r0 >= NR THEN pc' = "done" /\ UNCHANGED <<r0, yielded>>
            ELSE LET r1 == IF r0 + c < NR THEN r0 + c ELSE NR IN
                 yielded' = Append(yielded, <<r0, r1>>) /\ r0' = r1 /\ UNCHANGED pc
-        /\ UNCHANGED <<Mx, c>>
-Spec == Init /\ [][Step]_vars
+        /\ UNCHANGED <<Mx, c, nacc>>
+\* random access (get_chunk, get_batch) between two steps of an iteration: it reads, and leaves the cursor where it is
+Access == /\ pc = "iter" /\ nacc < 2 /\ nacc' = nacc + 1
+          /\ UNCHANGED <<Mx, c, r0, yielded, pc>>
+Spec == Init /\ [][Step \/ Access]_vars
 
 \* yielded ranges are contiguous, start at 0, are at most c long and, at the end, cover 0..NR
 RangesTile == /\ \A i \in 1..Len(yielded) : yielded[i][1] < yielded[i][2] /\ yielded[i][2] - yielded[i][1] <= c
@@ -62,12 +66,12 @@ BatchDirect(rows) == [i \in 1..Len(rows) |-> Mx[rows[i] + 1]]
 BatchCorrect == pc = "iter" /\ r0 = 0 /\ c = 1 => \A rows \in RowLists : BatchViaRanges(rows) = BatchDirect(rows)
 
 \* scenario emission: the matrix with every batch (the chunk ranges follow from the chunk size)
-EmitAct == /\ pc = "iter" /\ r0 = 0 /\ c = 1
+EmitAct == /\ pc = "iter" /\ r0 = 0 /\ c = 1 /\ nacc = 0
            /\ PrintT(<<"SCN", ToJson([matrix |-> Mx,
                        chunks |-> [k \in 1..(NR + 1) |->
                                      [j \in 1..((NR + k - 1) \div k) |->
                                         <<(j - 1) * k, IF j * k < NR THEN j * k ELSE NR>>]],
                        batches |-> {[rows |-> rows, result |-> BatchDirect(rows)] : rows \in RowLists}])>>)
-           /\ pc' = "emitted" /\ UNCHANGED <<Mx, c, r0, yielded>>
+           /\ pc' = "emitted" /\ UNCHANGED <<Mx, c, r0, yielded, nacc>>
 GenSpec == Init /\ [][EmitAct]_vars
 =============================================================================
